@@ -18,6 +18,7 @@ var profile = gen.Profile{
 	MinSteps: 3, MaxSteps: 24, Limits: []int{32},
 	PNote: 25, PGate: 70, PInvalid: 14, PUnknown: 10, PBatch: 45, MaxBatch: 5, PTopInvalid: 4,
 	PBurst: 35, Builtins: true, Pins: true,
+	AllowPush: true, PPush: 5, // half of the servers push-enabled: callbacks from outside and the peer's replies to them
 	Outcomes:      []string{"ok", "ok", "err:-32000", "err:7", "bad", "baderr", "err:-32600", "err:-32700"},
 	Chans:         []string{"direct", "pipe", "fragile"},
 	PBaseDeadline: 0,
